@@ -1,3 +1,10 @@
 -- Root of the VerylModel library: property theorems (which import the models and lemmas).
 import VerylModel.Props.C29
+import VerylModel.Props.C12
+import VerylModel.Props.C23
 import VerylModel.Props.C04
+import VerylModel.Props.C06
+import VerylModel.Props.C24
+import VerylModel.Props.C36
+import VerylModel.Props.C35
+import VerylModel.Props.C32
